@@ -3,6 +3,7 @@ package props
 import (
 	"context"
 	"fmt"
+	"strings"
 	"time"
 
 	apiv1 "github.com/attestantio/go-eth2-client/api/v1"
@@ -12,11 +13,14 @@ import (
 	dirkam "github.com/attestantio/vouch/services/accountmanager/dirk"
 	mockaccountmanager "github.com/attestantio/vouch/services/accountmanager/mock"
 	walletam "github.com/attestantio/vouch/services/accountmanager/wallet"
+	"github.com/attestantio/vouch/services/attestationaggregator"
 	mockattestationaggregator "github.com/attestantio/vouch/services/attestationaggregator/mock"
 	"github.com/attestantio/vouch/services/attester"
 	standardattester "github.com/attestantio/vouch/services/attester/standard"
 	"github.com/attestantio/vouch/services/beaconblockproposer"
+	"github.com/attestantio/vouch/services/beaconcommitteesubscriber"
 	mockbeaconcommitteesubscriber "github.com/attestantio/vouch/services/beaconcommitteesubscriber/mock"
+	standardsubscriber "github.com/attestantio/vouch/services/beaconcommitteesubscriber/standard"
 	"github.com/attestantio/vouch/services/cache"
 	mockcache "github.com/attestantio/vouch/services/cache/mock"
 	standardcontroller "github.com/attestantio/vouch/services/controller/standard"
@@ -26,9 +30,11 @@ import (
 	standardsyncaggregator "github.com/attestantio/vouch/services/synccommitteeaggregator/standard"
 	"github.com/attestantio/vouch/services/synccommitteemessenger"
 	standardsyncmessenger "github.com/attestantio/vouch/services/synccommitteemessenger/standard"
+	"github.com/attestantio/vouch/util"
 	"github.com/attestantio/vouch/verifmc/mc"
 	"github.com/attestantio/vouch/verifmc/mcontext"
 	"github.com/rs/zerolog"
+	"github.com/spf13/viper"
 	e2wtypes "github.com/wealdtech/go-eth2-wallet-types/v2"
 )
 
@@ -184,9 +190,9 @@ func c17MoreScenarios() []c17Scn {
 
 	// controller: a head event (possibly a reorg) arriving while an attestation job runs and while shutdown
 	// asks for pending attestations
-	for _, reorg := range []bool{false, true} {
-		reorg := reorg
-		scns = append(scns, c17Scn{name: fmt.Sprintf("controller/headevent-attest-pending/reorg=%v", reorg), deviation: true, tail: int64(10 * time.Second), settle: int64(c03SlotDur) + int64(c03Delay) - int64(time.Second),
+	for _, variant := range []string{"false", "true", "true/real-subscriber"} {
+		reorg, realSub := variant != "false", strings.HasSuffix(variant, "real-subscriber")
+		scns = append(scns, c17Scn{name: "controller/headevent-attest-pending/reorg=" + variant, deviation: true, tail: int64(10 * time.Second), settle: int64(c03SlotDur) + int64(c03Delay) - int64(time.Second),
 			setup: func(ctx context.Context) []func() {
 				w := &c03World{attKinds: [2]string{"E", "C"}, propKinds: [2]string{"A", "A"}, reorgAt: -1}
 				ct := newChainTime(-(int64(c03Epoch0*c03SPE) * int64(c03SlotDur)), c03SlotDur, c03SPE)
@@ -197,14 +203,27 @@ func c17MoreScenarios() []c17Scn {
 					byIndex[phase0.ValidatorIndex(i)] = newAccount("W", fmt.Sprintf("v%d", i), byte(i))
 				}
 				ev := &eventsProvider{}
+				// with the real committee subscriber the subscription information is real and the attester stand-in
+				// hands back attestations, so that the attestation job looks its committees up in it
+				var att attester.Service = w
+				var sub beaconcommitteesubscriber.Service = mockbeaconcommitteesubscriber.New()
+				var agg attestationaggregator.Service = mockattestationaggregator.New()
+				if realSub {
+					rw := &c14rWorld{c03World: w}
+					subscriber, err := standardsubscriber.New(ctx, standardsubscriber.WithLogLevel(zerolog.Disabled), standardsubscriber.WithMonitor(&nullmetrics.Service{}),
+						standardsubscriber.WithProcessConcurrency(2), standardsubscriber.WithChainTimeService(ct), standardsubscriber.WithAttesterDutiesProvider(w),
+						standardsubscriber.WithAttestationAggregator(rw), standardsubscriber.WithBeaconCommitteeSubmitter(rw))
+					must(err)
+					att, sub, agg = rw, subscriber, rw
+				}
 				ctrl, err := standardcontroller.New(ctx,
 					standardcontroller.WithLogLevel(zerolog.Disabled), standardcontroller.WithMonitor(nullmetrics.New()),
 					standardcontroller.WithSpecProvider(&specProvider{m: baseSpec(c03SlotDur, c03SPE)}), standardcontroller.WithChainTimeService(ct),
 					standardcontroller.WithProposerDutiesProvider(w), standardcontroller.WithAttesterDutiesProvider(w),
 					standardcontroller.WithSyncCommitteeDutiesProvider(vouchmock.NewSyncCommitteeDutiesProvider()), standardcontroller.WithEventsProvider(ev),
 					standardcontroller.WithValidatingAccountsProvider(&accountsTable{byIndex: byIndex}), standardcontroller.WithProposalsPreparer(mockproposalpreparer.New()),
-					standardcontroller.WithScheduler(sched), standardcontroller.WithAttester(w), standardcontroller.WithBeaconBlockProposer(w),
-					standardcontroller.WithBeaconCommitteeSubscriber(mockbeaconcommitteesubscriber.New()), standardcontroller.WithAttestationAggregator(mockattestationaggregator.New()),
+					standardcontroller.WithScheduler(sched), standardcontroller.WithAttester(att), standardcontroller.WithBeaconBlockProposer(w),
+					standardcontroller.WithBeaconCommitteeSubscriber(sub), standardcontroller.WithAttestationAggregator(agg),
 					standardcontroller.WithAccountsRefresher(mockaccountmanager.NewRefresher()),
 					standardcontroller.WithBlockToSlotSetter(mockcache.New(map[phase0.Root]phase0.Slot{}).(cache.BlockRootToSlotSetter)),
 					standardcontroller.WithBeaconBlockHeadersProvider(vouchmock.NewBeaconBlockHeadersProvider()), standardcontroller.WithSignedBeaconBlockProvider(vouchmock.NewSignedBeaconBlockProvider()),
@@ -251,5 +270,37 @@ func c17MoreScenarios() []c17Scn {
 			},
 		}
 	}})
+	// the process-wide table of relay clients: the goroutines of a registration round (one per relay), REST
+	// requests and auctions obtain their clients from it; one relay is known already, the other is met for the
+	// first time (a refreshed configuration names a new relay)
+	scns = append(scns, c17Scn{name: "util/relay-client-table/known+new", setup: func(ctx context.Context) []func() {
+		util.VerifResetBuilderClients()
+		util.VerifSetBuilderClient(c12Relay, c12Relays{})
+		viper.Set("timeout", "2s")
+		return []func(){
+			func() { _, _ = util.FetchBuilderClient(ctx, c12Relay, nil, "test") },
+			func() { _, _ = util.FetchBuilderClient(ctx, "http://localhost:18551/", nil, "test") },
+			func() { _, _ = util.FetchBuilderClient(ctx, c12Relay, nil, "test") },
+		}
+	}})
+	// block relay as the beacon node's builder: unblinding a signed blinded block with two relays (both hand the
+	// block over at once; one does and the other fails and tries again a quarter of a second later)
+	for _, behs := range [][2]string{{"full", "full"}, {"full", "err3"}, {"err3", "full"}} {
+		behs := behs
+		scns = append(scns, c17Scn{name: "blockrelay/unblind-two-relays/" + behs[0] + "+" + behs[1], deviation: true, settle: int64(time.Second), setup: func(ctx context.Context) []func() {
+			e := &c05Env{version: spec.DataVersionDeneb, blinded: true, acct: newAccount("W", "proposer", 7)}
+			for i := 0; i < 2; i++ {
+				e.relays = append(e.relays, &c05Relay{idx: i, env: e, beh: behs[i]})
+			}
+			svc, block := c20RelayUnblindSetup(ctx, e)
+			return []func(){
+				func() {
+					c, cancel := mcontext.WithTimeout(ctx, 8*time.Second)
+					defer cancel()
+					_, _ = svc.UnblindBlock(c, block)
+				},
+			}
+		}})
+	}
 	return scns
 }
